@@ -1,6 +1,23 @@
-//! C01 / C07: bulkhead. script = [cap, max_wait_ms (-1 none), n, (op a b)*]
-//! op 1 Poll a | 2 Drop a | 3 Advance a ms | 4 Complete a b (0 ok, 1 err, 2 panic)
-//! trace per event = [r, started, seen, wake mask, in-flight]
+//! C01 / C07: bulkhead. script = [cap, max_wait_ms (-1 none), nf, (op a b)*], nf = n + 1000 * flags
+//! op 1 Poll a | 2 Drop a | 3 Advance a ms | 4 Complete a b (0 ok, 1 err, 2 panic in the response future,
+//!   3 synchronous panic inside the inner service's call()) | 5 call() without a poll
+//! flags (none of them exists in the model: every route yields (cap, max_wait), every handle shares the semaphore):
+//!   flags % 8       builder route: 0 builder().max_concurrent_calls(cap)[.max_wait_duration(mw)]
+//!                     1 ….max_concurrent_calls(cap).reject_when_full()        (script has mw = 0)
+//!                     2 BulkheadLayer::small()  (script has cap 10, mw 0)   3 medium() (50, 0)   4 large() (200, 0)
+//!                     5 builder() with the default max_concurrent_calls (script has cap 25) [.max_wait_duration(mw)]
+//!                     6 small().max_wait_duration(mw) (script has cap 10)
+//!   (flags / 8) % 4 handle: 0 a fresh clone of the service per caller | 1 every caller through ONE handle |
+//!                     2 every caller through the service returned by layer() itself | 3 each caller through a clone
+//!                     of the previous caller's handle
+//!   (flags / 32) % 2  1 = panicking listeners registered for all four bulkhead events
+//! max_wait >= 10^15 ms stands for Duration::MAX.
+//! trace per event = [r, inner calls started inside this poll, max in-flight seen by any inner call started during
+//!   this event, wake mask (first 120 callers), in-flight, ids (+1, base 1024) of the requests whose inner call was
+//!   started during this event -- inside the poll or anywhere else (call(), drop, timers, spawned tasks)]
+use std::collections::HashSet;
+use std::sync::{Arc, Mutex};
+use std::task::{Context, Poll};
 use std::time::Duration;
 use tower::{Layer, Service};
 use tower_resilience_bulkhead::{BulkheadError, BulkheadLayer, BulkheadServiceError};
@@ -8,39 +25,106 @@ use verif_harness::*;
 
 type Res = Result<i128, BulkheadServiceError<i128>>;
 
+/// GatedInner plus "the service itself panics in call()" for the requests in `sync_panic`:
+/// the request is logged as started (it did reach the inner service, which saw in-flight + 1) and
+/// the panic unwinds through Bulkhead's response future before any inner future exists.
+#[derive(Clone)]
+struct Inner {
+    g: GatedInner,
+    sync_panic: Arc<Mutex<HashSet<i128>>>,
+    called: Arc<Mutex<HashSet<i128>>>,
+}
+
+impl Service<i128> for Inner {
+    type Response = i128;
+    type Error = i128;
+    type Future = <GatedInner as Service<i128>>::Future;
+    fn poll_ready(&mut self, cx: &mut Context<'_>) -> Poll<Result<(), i128>> {
+        self.g.poll_ready(cx)
+    }
+    fn call(&mut self, req: i128) -> Self::Future {
+        self.called.lock().unwrap().insert(req);
+        if self.sync_panic.lock().unwrap().contains(&req) {
+            let sh = &self.g.0;
+            sh.starts.lock().unwrap().push((req, sh.inflight() + 1));
+            panic!("scripted synchronous panic in inner call()");
+        }
+        self.g.call(req)
+    }
+}
+
 fn run(s: &[i128]) -> Vec<i128> {
     let cap = zn(s, 0) as usize;
     let mw = zn(s, 1);
-    let n = zn(s, 2) as usize;
+    let nf = zn(s, 2);
+    let n = nf.rem_euclid(1000) as usize;
+    let flags = nf.div_euclid(1000);
+    let (route, handle, listen) = (flags % 8, (flags / 8) % 4, (flags / 32) % 2);
     let total = n + cap + 1;
     let rt = paused_rt();
     rt.block_on(async move {
-        let inner = GatedInner::new();
-        let sh = inner.0.clone();
-        let mut b = BulkheadLayer::builder().max_concurrent_calls(cap);
-        if mw >= 0 {
-            b = b.max_wait_duration(Duration::from_millis(mw as u64));
+        let g = GatedInner::new();
+        let sh = g.0.clone();
+        let inner = Inner { g, sync_panic: Default::default(), called: Default::default() };
+        let sync_panic = inner.sync_panic.clone();
+        let called = inner.called.clone();
+        let wait = |b: tower_resilience_bulkhead::BulkheadConfigBuilder| {
+            if mw >= 1_000_000_000_000_000 { b.max_wait_duration(Duration::MAX) }
+            else if mw >= 0 { b.max_wait_duration(Duration::from_millis(mw as u64)) }
+            else { b }
+        };
+        let mut b = match route {
+            1 => BulkheadLayer::builder().max_concurrent_calls(cap).reject_when_full(),
+            2 => BulkheadLayer::small(),
+            3 => BulkheadLayer::medium(),
+            4 => BulkheadLayer::large(),
+            5 => wait(BulkheadLayer::builder()),
+            6 => wait(BulkheadLayer::small()),
+            _ => wait(BulkheadLayer::builder().max_concurrent_calls(cap)),
+        };
+        if listen == 1 {
+            b = b
+                .on_call_permitted(|_| panic!("listener"))
+                .on_call_rejected(|_| panic!("listener"))
+                .on_call_finished(|_| panic!("listener"))
+                .on_call_failed(|_| panic!("listener"));
         }
-        let base = b.build().layer(inner);
+        let mut base = b.build().layer(inner);
+        let mut shared = base.clone();
         let mut callers: Vec<Option<Manual<Res>>> = (0..total).map(|_| None).collect();
         let mut created = vec![false; total];
         let mut tr = Vec::new();
-        let mut evs: Vec<(i128, i128, i128)> =
-            s[3.min(s.len())..].chunks(3).filter(|c| c.len() == 3).map(|c| (c[0], c[1], c[2])).collect();
-        for i in 0..n { evs.push((2, i as i128, 0)); }
-        for i in n..total { evs.push((1, i as i128, 0)); }
-        for (op, a, b) in evs {
+        let mut evs: Vec<(i128, i128, i128, bool)> = s[3.min(s.len())..]
+            .chunks(3)
+            .filter(|c| c.len() == 3)
+            .filter(|c| c[0] == 3 || (c[1] >= 0 && (c[1] as usize) < n))
+            .map(|c| (c[0], c[1], c[2], false))
+            .collect();
+        for i in 0..n { evs.push((2, i as i128, 0, true)); }
+        for i in n..total { evs.push((1, i as i128, 0, true)); }
+        sh.take_starts();
+        for (op, a, b, _probe) in evs {
             let mut r: i128 = -1;
-            let (mut started, mut seen) = (0i128, 0i128);
+            let mut in_poll: i128 = 0;
+            let mut all_starts: Vec<(i128, i64)> = Vec::new();
             match op {
                 1 | 2 | 5 => {
-                    if a < 0 || a as usize >= total { continue; }
                     let i = a as usize;
                     if !created[i] {
                         created[i] = true;
-                        let mut svc = base.clone();
-                        futures::future::poll_fn(|cx| svc.poll_ready(cx)).await.ok();
-                        callers[i] = Some(Manual::new(svc.call(i as i128)));
+                        let fut = match handle {
+                            1 => { futures::future::poll_fn(|cx| shared.poll_ready(cx)).await.ok(); shared.call(i as i128) }
+                            2 => { futures::future::poll_fn(|cx| base.poll_ready(cx)).await.ok(); base.call(i as i128) }
+                            3 => {
+                                let mut svc = shared.clone();
+                                futures::future::poll_fn(|cx| svc.poll_ready(cx)).await.ok();
+                                let f = svc.call(i as i128);
+                                shared = svc;
+                                f
+                            }
+                            _ => { let mut svc = base.clone(); futures::future::poll_fn(|cx| svc.poll_ready(cx)).await.ok(); svc.call(i as i128) }
+                        };
+                        callers[i] = Some(Manual::new(fut));
                     }
                     let m = callers[i].as_mut().unwrap();
                     if op == 5 {
@@ -49,7 +133,7 @@ fn run(s: &[i128]) -> Vec<i128> {
                         if !m.alive() {
                             r = 9;
                         } else {
-                            sh.take_starts();
+                            all_starts.extend(sh.take_starts()); // started by call() itself: not inside the poll
                             let fin = m.poll();
                             r = if !fin { 0 } else if m.panicked { 5 } else {
                                 match m.done.take().unwrap() {
@@ -59,7 +143,9 @@ fn run(s: &[i128]) -> Vec<i128> {
                                     Err(BulkheadServiceError::Bulkhead(_)) => 4,
                                 }
                             };
-                            if let Some((_, sn)) = sh.take_starts().first() { started = 1; seen = *sn as i128; }
+                            let st = sh.take_starts();
+                            in_poll = st.len() as i128;
+                            all_starts.extend(st);
                         }
                     } else {
                         m.drop_fut();
@@ -67,15 +153,28 @@ fn run(s: &[i128]) -> Vec<i128> {
                     }
                 }
                 3 => advance_ms(a.max(0) as u64).await,
-                4 => { if a >= 0 && (a as usize) < total { sh.complete(a, 0, match b { 0 => Outcome::Ok(a), 1 => Outcome::Err(a), _ => Outcome::Panic }); } }
+                4 => {
+                    // the gate of a caller is set once (later Complete events for it are no-ops, as in the model)
+                    let o = match b { 0 => Outcome::Ok(a), 1 => Outcome::Err(a), _ => Outcome::Panic };
+                    let first = sh.complete(a, 0, o);
+                    if first && b == 3 && !called.lock().unwrap().contains(&a) {
+                        sync_panic.lock().unwrap().insert(a);
+                    }
+                }
                 _ => continue,
             }
             settle().await;
+            all_starts.extend(sh.take_starts());
+            let seen = all_starts.iter().map(|x| x.1 as i128).max().unwrap_or(0);
+            let mut ids: i128 = 0;
+            for (k, (req, _)) in all_starts.iter().enumerate().take(10) {
+                ids += (req + 1) << (10 * k);
+            }
             let mut mask: i128 = 0;
-            for (j, c) in callers.iter().enumerate() {
+            for (j, c) in callers.iter().enumerate().take(120) {
                 if let Some(m) = c { if m.alive() && m.woken() { mask += 1i128 << j; } }
             }
-            tr.extend([r, started, seen, mask, sh.inflight() as i128]);
+            tr.extend([r, in_poll, seen, mask, sh.inflight() as i128, ids]);
         }
         tr
     })
